@@ -249,6 +249,24 @@ def _ws_class(kind):
     return z3.Union(*parts)
 
 
+def _splitlines(it, a, k, n):
+    """s.splitlines(): concrete text exactly; otherwise an unknown number of unknown pieces of the same kind
+    (over-approximation: nothing is said about the pieces -- a bytes piece has no CR / LF, but str.splitlines also splits
+    at VT, FF, FS, GS, RS, NEL, LS, PS, which is why the two are NOT interchangeable; neither fact is used)"""
+    s = a[0]
+    if len(a) > 1 or k:
+        raise Unsupported("splitlines(keepends)")
+    cs = concrete_str(s.z)
+    if cs is not None:
+        if s.kind == "bytes":
+            return VList([VStr(x.decode("latin-1"), "bytes") for x in cs.encode("latin-1").splitlines()])
+        return VList([VStr(x) for x in cs.splitlines()])
+    if it.spec:
+        raise Unsupported("splitlines in spec")
+    from .fresh import fresh_value
+    return fresh_value(it, ("list", s.kind), it.ctx.fresh_name("splitlines"))
+
+
 def _split(it, a, k, n):
     s = a[0]
     sep = it.need(a[1]) if len(a) > 1 else it.need(k.get("sep", NONE))
@@ -539,7 +557,7 @@ _METHODS = {
     "strip": _strip(True, True), "lstrip": _strip(True, False), "rstrip": _strip(False, True),
     "lower": _fold(LOWER, lambda s: s.lower()), "upper": _fold(UPPER, lambda s: s.upper()),
     "title": _fold(TITLE, lambda s: s.title()),
-    "split": _split, "rsplit": _rsplit, "join": _join, "replace": _replace, "encode": _encode,
+    "split": _split, "rsplit": _rsplit, "splitlines": _splitlines, "join": _join, "replace": _replace, "encode": _encode,
     "decode": _decode, "isdigit": _isdigit, "zfill": _zfill, "count": _count, "format": _format,
 }
 
